@@ -42,6 +42,9 @@ for id in sorted(os.listdir('/verif/seeded')):
     }
     if id == 'C04-2':
         meta["rebased"] = "re-based after the D12 fix in /repo renamed the call in the context line (createTable -> createTableUnchecked); the removed lines are the same; demo re-run: fails with, passes without"
+    if id == 'C07-2':
+        meta["rebased"] = "re-based by hand after the D14 fix restructured setRelationsBatch: the same change (an early return for 'nothing to move' placed after the lock was taken, without unlocking) in the new code; re-confirmed with tools/reconfirm.sh: suite passes, demo fails with and passes without"
+    meta["confirmed_by"]["reconfirmed"] = "tools/reconfirm.sh against /repo HEAD after the last fix commit"
     json.dump(meta, open(d + '/meta.json', 'w'), indent=1)
     exps.append({"id": id, "patch": "seeded/%s/patch.diff" % id, "caught_by": caught.get(id, [])})
 for f in sorted(os.listdir('/verif/regressions')):
